@@ -91,6 +91,15 @@ def _expected_status(family, fault):
     return '500'
 
 
+def _norm_detail(family, d):
+    """XML carries text only: leaves are compared as text there, as typed values elsewhere."""
+    if isinstance(d, dict):
+        return {k: _norm_detail(family, v) for k, v in d.items()}
+    if family in ('soap11', 'soap12', 'xml') and d is not None:
+        return str(d)
+    return d
+
+
 def _mk_pipeline(family):
     @obligation('C09.pipeline.%s' % family, targets=['spyne.application:Application.process_request',
                                                       'spyne.server.wsgi:WsgiApplication.handle_error'],
@@ -156,7 +165,8 @@ def _mk_pipeline(family):
                 c.check('out_error_is_the_raised_fault', ctx.out_error is f, detail=repr(ctx.out_error))
             c.check('code_intact', doc['faultcode'] == f.faultcode, detail=(doc['faultcode'], f.faultcode))
             c.check('string_intact', doc['faultstring'] == f.faultstring, detail=(doc['faultstring'], f.faultstring))
-            c.check('detail_intact', (doc['detail'] or None) == (f.detail or None), detail=(doc['detail'], f.detail))
+            c.check('detail_intact', _norm_detail(family, doc['detail'] or None) == _norm_detail(family, f.detail or None),
+                    detail=(doc['detail'], f.detail))
             c.check('status_documented', status[:3] == _expected_status(family, f), detail=(status, f.faultcode))
         c.check('return_value_not_sent', not doc['extra'] and b'mResult' not in body and b'mResponse' not in body,
                 detail=(doc['extra'], body[:200]))
